@@ -360,8 +360,9 @@ public:
     Index compute(SortRule selection = SortRule::LargestMagn, Index maxit = 1000,
                   RealScalar tol = 1e-10, SortRule sorting = SortRule::LargestAlge)
     {
-        // The m-step Lanczos factorization
-        m_fac.factorize_from(1, m_ncv, m_nmatop);
+        // The m-step Lanczos factorization, extended from the current step:
+        // step 1 right after init(), step m_ncv if compute() is called again
+        m_fac.factorize_from((std::max)(Index(1), m_fac.subspace_dim()), m_ncv, m_nmatop);
         retrieve_ritzpair(selection);
         // Restarting
         Index i, nconv = 0, nev_adj;
